@@ -140,6 +140,14 @@ func buildNode(obj slip.Object, p *slip.Printer) (node Node) {
 			prefix = fmt.Sprintf("#%dA", to.Rank())
 		}
 		node = arrayFromList(prefix, to.AsList(), p)
+	case slip.SpecialSyntax:
+		// Written by the reader as 'x, `x, ,x or ,@x. Keep that syntax for the
+		// whole form, a comma written as ,x can only be read inside a `x.
+		if args := to.GetArgs(); len(args) == 1 {
+			node = newPrefixed(to.SpecialPrefix(), args[0], p)
+		} else {
+			node = &Leaf{text: p.Append(nil, obj, 0)}
+		}
 	case slip.Funky:
 		node = buildCall(slip.Symbol(to.GetName()), to.GetArgs(), p)
 	case slip.Symbol:
